@@ -507,7 +507,7 @@ func checkC40(r *mon.Run) {
 			}
 			r.Violation(k, fmt.Sprintf("%s served a key that is not the one requested/authorised (engine calls %+v)", c.RPC, calls), w)
 		}
-		if r.WantSample() && i%20000 == 77 {
+		if r.WantSample() && i%1999 < 40 {
 			r.Sample(w)
 		}
 	}
